@@ -4,9 +4,10 @@
    full).  Reading through a view is [mem_read], which is [OOB SITE_MAP_WORD] when the range is not backed by the
    file; [safe r] (Proofs/NoOobProof.v) says a result is not an OOB value.
    Also here: the machine-level `get` of the integer-vector view ([im_get_w], Model/MappedGet.v) agrees with C13's
-   [im_get] for every width the library writes (<= 64) and is refuted beyond: `new` does not look at the width
+   [im_get] for every width <= 64; since the repair ed19660 `new` accepts no other width, so `get` is covered for
+   every accepted view.  `new` as it was before ([im_new_nowidth]) is refuted: it did not look at the width
    element, and with a width >= 2^64 - 63 the wrapped `offset + width` selects the branch that indexes the 65-entry
-   mask table with the width itself. *)
+   mask table with the width itself (finding F14). *)
 From Coq Require Import NArith List Lia ZArith Bool.
 Require Import SDS.Model.Mach SDS.Model.Bits SDS.Model.Raw SDS.Model.IntVec SDS.Model.Mapped SDS.Model.MappedGet.
 Require Import SDS.gen.Consts.
@@ -155,19 +156,50 @@ Proof.
   destruct H as (Hi & Hb & _). split; [exact Hi|]. split; [exact Hb|]. exact (view_inside_safe m file v Hi).
 Qed.
 
-(* ================================================================ `get` beyond the widths the library writes *)
+(* ================================================================ `get` of every accepted integer-vector view *)
+
+(* `get(j)` of the integer-vector view (directly or through options), EVERY j: not an OOB value, and it is C13's *)
+Fixpoint view_get_safe (m : mode) (v : view) : Prop :=
+  match v with
+  | VwInt i => forall j, safe (im_get_w m i j) /\ im_get_w m i j = im_get m i j
+  | VwOpt o => match mo_data o with Some v' => view_get_safe m v' | None => True end
+  | _ => True
+  end.
+
+Lemma view_get_safe_of m v : view_safe m v -> view_int_widths v -> view_get_safe m v.
+Proof.
+  revert v. fix IH 1. intros [s|s|b|b|r|i|[[v'|] o d]]; cbn [view_safe view_int_widths view_get_safe mo_data];
+    try (intros _ _; exact I).
+  - intros (_ & Hg) Hw. apply Hg. lia.
+  - apply IH.
+Qed.
+
+(* since the repair ed19660 `new` refuses a width element of 0 or above 64, so on ANY file `get` of an accepted
+   view is covered for every index *)
+Theorem no_oob_mapped_get : forall m t file offset,
+  lenN file < 2 ^ 61 -> offset < 2 ^ 64 ->
+  new_safe (view_new m t file offset) (fun v => view_int_widths v /\ view_get_safe m v).
+Proof.
+  intros m t file offset Hf Ho. pose proof (no_oob_mapped m t file offset Hf Ho) as H.
+  pose proof (any_file_int_width m t file offset) as Hw.
+  destruct (view_new m t file offset) as [v| | |]; cbn [new_safe] in *; try exact H.
+  destruct H as (_ & _ & Hs). split; [exact Hw|exact (view_get_safe_of m v Hs Hw)].
+Qed.
+
+(* ================================================================ `new` before the repair ed19660 (finding F14) *)
 
 (* the serialized Vec<u64> [2^64-1, 2^64-1, 0, 1, 5]: viewed as an integer vector at element 1 it has
    len = width = 2^64 - 1, an empty bit length, and one data word *)
 Definition f14_file : list N := [5; 2 ^ 64 - 1; 2 ^ 64 - 1; 0; 1; 5].
 Definition f14_view : imapper := mkim (2 ^ 64 - 1) (2 ^ 64 - 1) (mkrm 0 (mkms f14_file 4 1)).
 
-Theorem int_get_wide_refuted :
-  (forall m, view_new m TyInt f14_file 1 = VOk (VwInt f14_view)) /\
+Theorem int_get_wide_old_refuted :
+  (forall m, im_new_nowidth m f14_file 1 = VOk f14_view) /\
   view_inside f14_file (VwInt f14_view) /\
   im_get_w Release f14_view (2 ^ 64 - 2) = OOB SITE_LOW_SET /\
-  im_get_w Debug f14_view (2 ^ 64 - 2) = Panic POverflow.
+  im_get_w Debug f14_view (2 ^ 64 - 2) = Panic POverflow /\
+  (forall m, view_new m TyInt f14_file 1 = VErr InvalidData).
 Proof.
   split; [intros []; reflexivity|]. split; [split; [reflexivity|vm_compute; discriminate]|].
-  split; vm_compute; reflexivity.
+  split; [vm_compute; reflexivity|]. split; [vm_compute; reflexivity|]. intros []; reflexivity.
 Qed.
